@@ -96,6 +96,12 @@ class FromGmat(Harness):
         g = _mk_gmat(kind, A.copy(), ploidy=pl)
         if self.params.get("grouped"):
             g.group_taxa()
+        lab = self.params.get("labels", "both")
+        if lab in ("taxa_only", "none"):
+            # sources that carry taxon names but no group labels / no labels at all
+            g.taxa_grp = None
+            if lab == "none":
+                g.taxa = None
         symnp.NARROW_ACCUM[:] = []
         parg = inp.get("p_scalar", inp.get("p"))
         if est == "molecular":
@@ -112,7 +118,8 @@ class FromGmat(Harness):
                 cm = DenseVanRadenCoancestryMatrixFactory().from_gmat(g, p_anc=parg)
             else:
                 cm = C.from_gmat(g, p_anc=parg)
-        out = dict(G=cm.mat, taxa=[str(t) for t in cm.taxa], taxa_grp=[int(x) for x in cm.taxa_grp], gtaxa=[str(t) for t in g.taxa],
+        _lst = lambda a, f: None if a is None else [f(x) for x in a]
+        out = dict(G=cm.mat, taxa=_lst(cm.taxa, str), taxa_grp=_lst(cm.taxa_grp, int), gtaxa=_lst(g.taxa, str), gtaxa_grp=_lst(g.taxa_grp, int),
                    K=cm.mat_asformat("kinship"), Cc=cm.mat_asformat("coancestry"), k00=cm.kinship(0, 0), c00=cm.coancestry(0, 0),
                    mx=cm.max(), mn=cm.min(), mean=cm.mean(), mxk=cm.max(format="kinship"), maxinb=cm.max_inbreeding(), maxinbk=cm.max_inbreeding(format="kinship"),
                    grouped=(cm.is_grouped_taxa(), g.is_grouped_taxa()), after=g.mat, narrow=list(symnp.NARROW_ACCUM))
@@ -143,7 +150,8 @@ class FromGmat(Harness):
                 P.prove(abs(out["bigdiag"] - 2.0) < 1e-9, "marker-sums-do-not-wrap (130 homozygous markers)", detail="self-coancestry %r" % out["bigdiag"])
         else:
             P.prove(not out["narrow"], "marker-sums-not-accumulated-in-an-8/16-bit-integer", detail="%s" % (out["narrow"][:2],))
-        P.prove(out["taxa"] == out["gtaxa"], "taxon-labels-of-the-source")
+        P.prove(out["taxa"] == out["gtaxa"], "taxon-labels-of-the-source", detail="%s vs source %s" % (out["taxa"], out["gtaxa"]))
+        P.prove(out["taxa_grp"] == out["gtaxa_grp"], "taxon-group-labels-of-the-source", detail="%s vs source %s" % (out["taxa_grp"], out["gtaxa_grp"]))
         P.prove(out["grouped"][0] == out["grouped"][1], "group-metadata-of-the-source")
         p = cells(inp["p"]) if "p" in inp else None
         w = cells(inp["w"]) if "w" in inp else None
@@ -364,6 +372,10 @@ def obligations(tier):
         obs.append(h)
     obs.append(FromGmat(est="molecular", kind="unphased", n=2, m=1, ploidy=2, factory=True, grouped=True))
     obs.append(FromGmat(est="vanraden", kind="unphased", n=2, m=1, ploidy=2, factory=True))
+    # sources with taxon names but no group labels, and without labels
+    for est in ("molecular", "vanraden", "yang", "gw"):
+        for lab in ("taxa_only", "none"):
+            obs.append(FromGmat(est=est, kind="unphased", n=2, m=1, ploidy=2, labels=lab))
     # one reference frequency for all markers, passed as a scalar
     obs.append(FromGmat(est="vanraden", kind="unphased", n=2, m=2, ploidy=2, scalar_p=True))
     obs.append(FromGmat(est="vanraden", kind="unphased", n=2, m=2, ploidy=2, scalar_p=True, factory=True))
